@@ -133,6 +133,9 @@ pub struct Io {
 }
 
 pub const DEFAULT_CAP: usize = 64 << 20;
+/// `cap` with this bit set: a fixed-size backend (like `Cursor<&mut [u8]>`): a write that
+/// reaches the end of the space is cut short and at the end returns Ok(0) instead of an error.
+pub const FIXED_BIT: usize = 1 << 62;
 
 impl Io {
     pub fn new() -> Io {
@@ -193,6 +196,12 @@ fn chop_amount(ctl: &mut Ctl, want: usize) -> Result<usize, io::Error> {
                 Ok(want)
             }
         }
+    }
+}
+
+impl std::fmt::Debug for Io {
+    fn fmt(&self, f: &mut std::fmt::Formatter<'_>) -> std::fmt::Result {
+        write!(f, "Io({} bytes)", self.len())
     }
 }
 
@@ -273,7 +282,14 @@ impl Write for Io {
             return Ok(n);
         }
         let mut data = self.data.lock().unwrap();
-        if self.pos.saturating_add(allowed as u64) > self.cap as u64 {
+        let mut allowed = allowed;
+        if self.cap & FIXED_BIT != 0 {
+            let limit = (self.cap & !FIXED_BIT) as u64;
+            allowed = allowed.min(limit.saturating_sub(self.pos) as usize);
+            if allowed == 0 {
+                return Ok(0);
+            }
+        } else if self.pos.saturating_add(allowed as u64) > self.cap as u64 {
             return Err(io::Error::new(io::ErrorKind::Other, "backend full (harness cap)"));
         }
         let start = self.pos as usize;
